@@ -269,6 +269,10 @@ def _apply_variants(recs, renames):
     return [walk2(r) for r in recs]
 
 
+def adts_paths(recs):
+    return set(r["def"] for r in recs if r.get("rec") == "adt")
+
+
 def apply(recs, known):
     """returns (records with reviewed names, [description of every rename applied])"""
     notes = []
@@ -278,6 +282,71 @@ def apply(recs, known):
     def ours(path):
         p = path.lstrip("<")
         return any(p.startswith(c + "::") for c in crates)
+
+    # ---- 0. modules (a file moved / a module renamed: every reviewed item under the old module path is gone and the same relative
+    #         names exist under one new module path)
+    def present_paths(rs):
+        out = set()
+        for r in rs:
+            k = r.get("rec")
+            if k == "adt":
+                out.add(r["def"])
+            elif k == "body" and r.get("kind") in ("Fn", "AssocFn") and not r.get("macro_generated"):
+                out.add(strip_generics(r["def"]))
+            elif k == "const":
+                out.add(strip_generics(r["def"]))
+        return out
+    for _round in range(3):
+        cur = present_paths(recs)
+        reviewed = [d for d in list(kad) + list(kfn) + list(kco) if ours(d) and not d.startswith("<")]
+        gone = [d for d in reviewed if d not in cur]
+        fresh = [d for d in cur if d not in kad and d not in kfn and d not in kco and not d.startswith("<") and "{closure" not in d and "::_::" not in d]
+        if not gone or not fresh:
+            break
+        mods_old = {}
+        for d in gone:
+            parts = d.split("::")
+            for i in range(2, len(parts)):
+                mods_old.setdefault("::".join(parts[:i]), set()).add("::".join(parts[i:]))
+        mods_new = {}
+        for d in fresh:
+            parts = d.split("::")
+            for i in range(2, len(parts)):
+                mods_new.setdefault("::".join(parts[:i]), set()).add("::".join(parts[i:]))
+        done = False
+        for O in sorted(mods_old, key=lambda x: (x.count("::"), x)):
+            # everything reviewed under O must be gone
+            under = [d for d in reviewed if d.startswith(O + "::")]
+            if len(under) < 3 or any(d in cur for d in under):
+                continue
+            rel = set(d[len(O) + 2:] for d in under)
+            cands = [N for N, rs in mods_new.items() if N != O and len(rel & rs) >= max(3, int(0.9 * len(rel))) and not any(x.startswith(N + "::") for x in reviewed if x in cur)]
+            # prefer the candidate that is not a prefix-extension artefact: the shortest path with full overlap
+            cands = sorted(cands, key=lambda x: (x.count("::"), x))
+            if len(cands) >= 1 and (len(cands) == 1 or cands[1].startswith(cands[0] + "::")):
+                N = cands[0]
+                recs = _apply_paths(recs, [(N, O)])
+                notes.append("module %s -> reviewed path %s" % (N, O))
+                done = True
+                break
+        if not done:
+            break
+    # ---- 0b. free functions moved to another module (same name, same signature, unambiguous)
+    cur = present_paths(recs)
+    bodies0 = {strip_generics(r["def"]): r for r in recs if r.get("rec") == "body" and r.get("kind") == "Fn" and not r.get("macro_generated")}
+    moved = []
+    for md, info in kfn.items():
+        if md in cur or not ours(md) or md.startswith("<"):
+            continue
+        mp, mn = _parent_of(md)
+        if mp in kad or any(mp == a for a in adts_paths(recs)):
+            continue        # a method: handled by the type / fn steps
+        cands = [nd for nd, r in bodies0.items() if nd not in kfn and _parent_of(nd)[1] == mn and r.get("argc") == info["argc"] and r.get("sig", "") == info["sig"]]
+        if len(cands) == 1 and sum(1 for x, i2 in kfn.items() if x not in cur and _parent_of(x)[1] == mn and i2["sig"] == info["sig"]) == 1:
+            moved.append((cands[0], md))
+            notes.append("fn %s (moved) -> reviewed path %s" % (cands[0], md))
+    if moved:
+        recs = _apply_paths(recs, moved)
 
     # ---- 1. types
     adts = {r["def"]: r for r in recs if r.get("rec") == "adt"}
